@@ -131,6 +131,17 @@ prop(
     explanation="",
 )
 
+prop(
+    "C05",
+    contract_modules=["contracts.c05"],
+    bcc="c05",
+    level="other",
+    claimed=False,
+    trusted=["vectorize_sse.h:fvec4", "libm.axioms", "C.int"],
+    assumptions=[],
+    explanation="",
+)
+
 # ---- stubs (filled in as the contracts are written) -------------------------------------------
 for _pid in ["C01", "C02", "C03", "C04", "C05", "C06", "C07", "C08", "C09", "C10", "C11", "C12", "C13", "C14",
              "C15", "C16", "C17", "C19", "C20"]:
